@@ -34,8 +34,11 @@ def _unimodular_spd(rng, m):
     return W, Wi
 
 
-def gen_lg_case(rng, idx, rkind=None, noise=None, dims=None):
-    """One linear Gaussian model d = R s + n; returns a JSON-able dict of ints / 'p/q' strings."""
+def gen_lg_case(rng, idx, rkind=None, noise=None, dims=None, cplx=False):
+    """One linear Gaussian model d = R s + n; returns a JSON-able dict of ints / 'p/q' strings.
+    cplx: complex-valued response and data (real signal, real diagonal noise variances): keys Ri, di."""
+    if cplx:
+        noise = "diag"
     m, n = dims if dims is not None else DIMS[int(rng.integers(len(DIMS)))]
     rkind = rkind or RKINDS[int(rng.integers(len(RKINDS)))]
     R = rng.integers(-2, 3, size=(m, n))
@@ -69,8 +72,24 @@ def gen_lg_case(rng, idx, rkind=None, noise=None, dims=None):
     p = rng.integers(-1, 2, size=n)
     s0 = rng.integers(-2, 3, size=n)
     sinv = [[Fr(1, 4), Fr(1), Fr(4)][int(rng.integers(3))] for _ in range(n)]
-    return {"idx": int(idx), "m": int(m), "n": int(n), "rkind": rkind, "noise": noise,
-            "rank": int(np.linalg.matrix_rank(R)),
+    extra = {}
+    if cplx:
+        Ri = rng.integers(-2, 3, size=(m, n))
+        if rkind == "dup_row" and m > 1:
+            Ri[m - 1] = Ri[0]
+        elif rkind == "dup_col" and n > 1:
+            Ri[:, n - 1] = -Ri[:, 0]
+        elif rkind == "zero":
+            Ri = np.zeros((m, n), dtype=int)
+            Ri[0, 0] = 1
+        if not Ri.any():
+            Ri[0, 0] = 1
+        extra = {"Ri": [[int(x) for x in r] for r in Ri], "di": [int(x) for x in rng.integers(-3, 4, size=m)]}
+        R_rank = np.vstack([R, Ri])
+    else:
+        R_rank = R
+    return {**extra, "idx": int(idx), "m": int(m), "n": int(n), "rkind": rkind, "noise": noise,
+            "rank": int(np.linalg.matrix_rank(R_rank)),
             "R": [[int(x) for x in r] for r in R], "W": [[str(x) for x in r] for r in W],
             "Wi": [[str(x) for x in r] for r in Wi], "d": [int(x) for x in d],
             "Q": [[int(x) for x in r] for r in Qm], "c": [int(x) for x in c], "p": [int(x) for x in p],
@@ -106,6 +125,37 @@ class LG:
         self.p = [Fr(x) for x in case["p"]]
         self.s0 = [Fr(x) for x in case["s0"]]
         self.sinv = [Fr(x) for x in case["sinv"]]
+        self.is_complex = "Ri" in case
+        self.m_impl = self.m
+        if self.is_complex:
+            # 1/2 (R s - d)^H N^-1 (R s - d) with real s is the REAL model with stacked response
+            # [Re R; Im R], data [Re d; Im d] and noise diag(N, N): all exact quantities below are
+            # those of the stacked model, the implementation gets the complex arrays (`impl`).
+            m = self.m
+            z = [[Fr(0)] * m for _ in range(m)]
+            self._Rc = (np.array(case["R"], dtype=np.float64) + 1j * np.array(case["Ri"], dtype=np.float64))
+            self._dc = (np.array(case["d"], dtype=np.float64) + 1j * np.array(case["di"], dtype=np.float64))
+            self._impl = {k: self.f(k) for k in ("W", "Wi", "Ninv", "N", "Q", "c")}
+            self.R = self.R + frmat(case["Ri"])
+            self.d = self.d + [Fr(x) for x in case["di"]]
+
+            def bd(A):
+                return [r + z0 for r, z0 in zip(A, z)] + [z0 + r for r, z0 in zip(A, z)]
+            self.W, self.Wi, self.Ninv, self.N = bd(self.W), bd(self.Wi), bd(self.Ninv), bd(self.N)
+            self.Q = self.Q + [[Fr(0)] * self.n for _ in range(m)]
+            self.c = self.c + [Fr(0)] * m
+            self.m = 2 * m
+
+    def impl(self, name):
+        """what the implementation is given: complex R / d for complex cases, otherwise f(name)"""
+        if self.is_complex:
+            if name == "R":
+                return self._Rc
+            if name == "d":
+                return self._dc
+            if name in self._impl:
+                return self._impl[name]
+        return self.f(name)
 
     def f(self, name):
         return np.array(getattr(self, name), dtype=object).astype(np.float64)
@@ -139,9 +189,9 @@ CG_TIGHT = dict(resnorm=1e-13, absdelta=None, miniter=0, maxiter=400)
 def jax_likelihood(lg, nonlinear=False):
     import jax.numpy as jnp
     import nifty.re as jft
-    R, Ninv, W, d = (jnp.asarray(lg.f(k)) for k in ("R", "Ninv", "W", "d"))
+    R, Ninv, W, d = (jnp.asarray(lg.impl(k)) for k in ("R", "Ninv", "W", "d"))
     if nonlinear:
-        Q, c = jnp.asarray(lg.f("Q")), jnp.asarray(lg.f("c"))
+        Q, c = jnp.asarray(lg.impl("Q")), jnp.asarray(lg.impl("c"))
 
         def fwd(x):
             return R @ x + Q @ (x * x) + c
@@ -212,8 +262,9 @@ def jax_T(lh, pos, sizes, draw_kwargs=None, point_estimates=()):
 # classic side
 # --------------------------------------------------------------------------------------------------
 
-def dense_op(domain, target, mat):
-    """Rectangular dense matrix as a classic LinearOperator (MatrixProductOperator is square-only)."""
+def dense_op(domain, target, mat, real_domain=True):
+    """Rectangular dense matrix as a classic LinearOperator (MatrixProductOperator is square-only).
+    A complex matrix on a real domain is the real-linear map x -> M x; its adjoint is Re(M^H y)."""
     import nifty.cl as ift
 
     class DenseOp(ift.LinearOperator):
@@ -228,7 +279,10 @@ def dense_op(domain, target, mat):
             v = x.asnumpy() if hasattr(x, "asnumpy") else x.val
             if mode == self.TIMES:
                 return ift.makeField(self._target, self._mat @ v)
-            return ift.makeField(self._domain, self._mat.conj().T @ v)
+            out = self._mat.conj().T @ v
+            if real_domain and np.iscomplexobj(out):
+                out = out.real.copy()
+            return ift.makeField(self._domain, out)
 
     return DenseOp(domain, target, mat)
 
@@ -237,14 +291,18 @@ def classic_ops(lg, nonlinear=False):
     """Operators of the classic API for a case (UnstructuredDomains)."""
     import nifty.cl as ift
     dom = ift.UnstructuredDomain(lg.n)
-    tgt = ift.UnstructuredDomain(lg.m)
-    Rop = dense_op(dom, tgt, lg.f("R"))
-    Wop = dense_op(tgt, tgt, lg.f("W"))
-    Ninv = ift.SandwichOperator.make(Wop, None, np.float64)      # W^T W, can draw samples
-    d = ift.makeField(tgt, lg.f("d"))
+    tgt = ift.UnstructuredDomain(lg.m_impl)
+    Rop = dense_op(dom, tgt, lg.impl("R"))
+    if lg.is_complex:     # real diagonal noise, complex sampling dtype (real and imaginary part have variance N each)
+        Ninv = ift.DiagonalOperator(ift.makeField(tgt, np.diag(lg.impl("Ninv")).copy()), sampling_dtype=np.complex128)
+        Wop = None
+    else:
+        Wop = dense_op(tgt, tgt, lg.f("W"))
+        Ninv = ift.SandwichOperator.make(Wop, None, np.float64)      # W^T W, can draw samples
+    d = ift.makeField(tgt, lg.impl("d"))
     if nonlinear:
-        Qop = dense_op(dom, tgt, lg.f("Q"))
-        c = ift.makeField(tgt, lg.f("c"))
+        Qop = dense_op(dom, tgt, lg.impl("Q"))
+        c = ift.makeField(tgt, lg.impl("c"))
         sig = ift.Adder(c) @ (Rop + Qop @ (ift.ScalingOperator(dom, 1.).ptw("power", 2)))
     else:
         sig = Rop
@@ -300,17 +358,24 @@ def classic_feed_flat(white=None, skip=0, skip_seed=0):
     def fake(dtype, shape, mean=0., std=1.):
         shp = tuple(shape) if hasattr(shape, "__len__") else (int(shape),)
         sz = int(np.prod(shp)) if shp else 1
+        cplx = np.issubdtype(dtype, np.complexfloating)
         state["calls"] += 1
         if state["calls"] <= skip:
-            return (rng.normal(size=shp) * std + mean).astype(dtype)
-        sizes.append(sz)
+            x = rng.normal(size=shp)
+            if cplx:
+                x = x + 1j * rng.normal(size=shp)
+            return (x * std + mean).astype(dtype)
+        need = 2 * sz if cplx else sz            # random.py: real and imaginary part are drawn with std each
+        sizes.append(need)
         if white is None:
-            v = np.zeros(sz)
+            v = np.zeros(need)
         else:
-            v = np.asarray(white[state["off"]:state["off"] + sz], dtype=np.float64)
-            if v.size != sz:
-                raise RuntimeError("flat feeder exhausted: need %d more entries" % sz)
-        state["off"] += sz
+            v = np.asarray(white[state["off"]:state["off"] + need], dtype=np.float64)
+            if v.size != need:
+                raise RuntimeError("flat feeder exhausted: need %d more entries" % need)
+        state["off"] += need
+        if cplx:
+            v = v[:sz] + 1j * v[sz:]
         return (v.reshape(shp) * std + mean).astype(dtype)
 
     nrandom.Random.normal = staticmethod(fake)
@@ -341,14 +406,19 @@ def jax_feed_flat(white=None):
         for l in leaves:
             shp = tuple(l.shape)
             sz = int(np.prod(shp)) if shp else 1
+            cplx = np.issubdtype(np.dtype(l.dtype), np.complexfloating)
+            need = 2 * sz if cplx else sz
             if white is None:
-                v = np.zeros(sz)
+                v = np.zeros(need)
             else:
-                v = np.asarray(white[info["off"]:info["off"] + sz], dtype=np.float64)
-                if v.size != sz:
+                v = np.asarray(white[info["off"]:info["off"] + need], dtype=np.float64)
+                if v.size != need:
                     raise RuntimeError("flat feeder exhausted")
-            info["off"] += sz
-            tot += sz
+            info["off"] += need
+            tot += need
+            if cplx:
+                # jax.random.normal(dtype=complex): real and imaginary part have variance 1/2 each
+                v = (v[:sz] + 1j * v[sz:]) / np.sqrt(2.0)
             out.append(jnp.asarray(v.reshape(shp)))
         info["sizes"].append(tot)
         return jax.tree_util.tree_unflatten(treedef, out)
